@@ -1297,11 +1297,19 @@ pub fn run_history_opt(case: &Value, window: &mut dyn FnMut(&mut dyn FnMut()) ->
     let h0 = if lite { json!([]) } else { pool.fin()["hs"][0].clone() };
     let mut obs: Vec<Value> = Vec::new();
     let mut harness_fault = false;
+    let mut obs_fault: Option<String> = None;
     for s in case["steps"].as_array().map(|a| a.as_slice()).unwrap_or(&[]) {
         let d = us(s, "d");
         let mut res: Result<(), String> = Ok(());
         let al = window(&mut || res = guarded(|| pool.exec(s)));
-        let mut o = if lite { pool.obs_lite(d) } else { pool.obs(d) };
+        // the observations call ==, cmp, hash, Display ... on what the step produced: a panic there is data as well
+        let mut o = match guarded(|| if lite { pool.obs_lite(d) } else { pool.obs(d) }) {
+            Ok(o) => o,
+            Err(m) => {
+                obs_fault = Some(m);
+                break;
+            }
+        };
         match res {
             Ok(()) => o["k"] = json!("ok"),
             Err(m) => {
@@ -1316,7 +1324,24 @@ pub fn run_history_opt(case: &Value, window: &mut dyn FnMut(&mut dyn FnMut()) ->
         o["op"] = s["op"].clone();
         obs.push(o);
     }
-    let fin = if lite { pool.fin_lite() } else { pool.fin() };
+    if let Some(m) = obs_fault {
+        // the pool may hold a value the library itself cannot handle any more: it is leaked, not dropped
+        std::mem::forget(pool);
+        let mut ev = case.clone();
+        ev["obsfault"] = json!(m);
+        ev["obs"] = json!(obs);
+        return ev;
+    }
+    let fin = match guarded(|| if lite { pool.fin_lite() } else { pool.fin() }) {
+        Ok(f) => f,
+        Err(m) => {
+            std::mem::forget(pool);
+            let mut ev = case.clone();
+            ev["obsfault"] = json!(m);
+            ev["obs"] = json!(obs);
+            return ev;
+        }
+    };
     // end of the history: every register is dropped
     let al_end = window(&mut || pool.clear());
     drop(pool);
